@@ -1,3 +1,4 @@
+import DSV.FactsOK.SrcC14
 import DSV.Generated.Facts
 import DSV.LLO.Plugin
 /-! C14 — the protocol limits used by the model are the constants of the working tree. -/
